@@ -8,18 +8,20 @@ from io import BytesIO
 from lib.coqterm import cbytes, cbool, copt, clist, cN, hx, unhx
 
 ID = "C31"
-QUICK_N = 1500
-THOROUGH_N = 20000
+QUICK_N = 1000
+THOROUGH_N = 12000
 SHARD = 100
 COQ_PRELUDE = "From MV Require Import Model.Encoding.\n"
 RULE = ("each case is one history of 1-10 calls on a fresh cache: raw encoding.decode/encode calls and "
         "Message.set_content/get_content/decode/encode on two real messages (a Response and a Request), interleaved with "
-        "harness edits of Content-Encoding / Transfer-Encoding / raw_content. Per case a small pool of coding names "
-        "(65% the five cached codings incl. deflateraw and mixed case, identity/none/empty, 20% unknown or multi-valued, "
-        "15% Python byte and str codecs such as hex, zlib, utf8, rot13) and of bodies (plain, their gzip/zlib/raw-deflate/"
-        "br/zstd streams, truncated / trailing-junk / doubled / bit-flipped streams); 40% of operands are results of "
-        "earlier steps so that the one-entry cache is hit with the same bytes under the same and under different codings. "
-        "Non-trivial = at least two cache-relevant calls and one cached coding; distinct by canonical JSON.")
+        "harness edits of Content-Encoding / Transfer-Encoding / raw_content. Per case one main coding (80% one of the five "
+        "cached codings, used in 70% of the calls, in mixed case 30%) plus 0-2 others (identity/none/empty, unknown or "
+        "multi-valued names, Python byte and str codecs such as hex, zlib, utf8, rot13); bodies: 1-2 plain strings, their "
+        "valid streams under the main coding (raw deflate too), and truncated / trailing-junk / doubled / bit-flipped "
+        "streams of all codecs; 35% of operands are results of earlier steps, so the one-entry cache is hit with the same "
+        "bytes under the same and under different codings (hits are tagged). Thorough adds every 3-call history over 15 "
+        "decode/encode calls around one body. Non-trivial = at least two cache-relevant calls and one cached coding; "
+        "distinct by canonical JSON.")
 TRUSTED = ["Coq 8.16.1 kernel (coqc), vm_compute for case evaluation",
            "harness/props/C31.py generator, runner, table of library results and comparison glue (Corr/C31.v)",
            "CONTRACT (hypothesis of the round-trip theorems, not proved): for gzip/zlib/brotli/zstd as called by encoding.py, "
@@ -129,7 +131,17 @@ def ref_decode(name, x):
         return b""
     try:
         if n == "gzip":
-            return gzip.decompress(x)
+            # two independent readers must agree (CPython's gzip module ignores reserved FLG bits that
+            # RFC 1952 tells a decoder to reject; zlib rejects them): otherwise no reference verdict
+            a = gzip.decompress(x)
+            b, rest = b"", x
+            while rest:
+                d = zlib.decompressobj(31)
+                b += d.decompress(rest) + d.flush()
+                if not d.eof:
+                    return None
+                rest = d.unused_data
+            return a if a == b else None
         if n in ("deflate", "deflateraw"):
             for wb in (15, -15):
                 try:
@@ -660,7 +672,10 @@ def oracle(case, obs):
                 if out != "done":
                     bad("set-content-raises", f"step {i}: content = {o['v']} with Content-Encoding {ce_b!r} -> {out}")
                     continue
-                if o["readback"] != {"k": "bytes", "b": o["v"]}:
+                kept_unsupported = ce_a == ce_b and (ce_b or "identity").lower() not in SUPPORTED
+                if o["readback"] != {"k": "bytes", "b": o["v"]} and not (kept_unsupported and o["readback"] == {"k": "value"}):
+                    # (a Python codec the property does not list may accept the body and then fail to read it back,
+                    #  e.g. idna on b""; returning DIFFERENT bytes is still a violation)
                     bad("set-get-roundtrip", f"step {i}: content = {o['v']} under {ce_b!r} reads back as {o['readback']}")
                 if ce_a != ce_b:
                     if ce_a is not None or a["raw"] != o["v"] or (ce_b or "identity").lower() in SUPPORTED:
@@ -711,7 +726,7 @@ def oracle(case, obs):
                     elif a["raw"] != b["raw"]:
                         bad("identity-raw", f"step {i}: encode('') changed the body")
                 elif out == "done":
-                    if ce_a != name or o["readback"] != {"k": "bytes", "b": b["raw"]}:
+                    if ce_a != name or o["readback"] not in ({"k": "bytes", "b": b["raw"]}, {"k": "value"}):
                         bad("encode-changes-content", f"step {i}: encode({name!r}) of {b['raw']} -> coding {ce_a!r}, reads back {o['readback']}")
                 elif out == "value":
                     if ce_a is not None or a["raw"] != b["raw"]:
